@@ -478,7 +478,13 @@ class DagGen:
       n.pos.append(self.arg_value(p, depth))
     if use_va:
       for _ in range(rng.choice([1, 1, 2, 2, 3, 4])):
-        n.pos.append(self.child(depth + 1))
+        c = self.child(depth + 1)
+        if (isinstance(c, B) and c.btype == 'TaggedValue'
+            and isinstance(c.kw.get('value'), Leaf) and c.kw['value'].value is fdl.NO_VALUE):
+          # a TaggedValue WITHOUT a value leaves a hole in *args (everything behind it is lost:
+          # known finding of C14, probed there directly) - not part of the random workloads
+          c = Leaf(0)
+        n.pos.append(c)
     if self.o.allow_gaps and len(n.pos) >= 2 and rng.random() < 0.4:
       # leave one defaulted positional parameter unset in front of later positional values
       cands = [i for i in range(min(len(n.pos) - 1, len(positional)))
